@@ -527,7 +527,9 @@ fn main() {
         args.seed,
     );
     let exe = args.driver_exe("drv_ackdurable");
-    let mut rng = Rng::new(args.seed);
+    // `Rng::new(s)` and `Rng::new(s + 1)` are the same stream shifted by one draw; fork once so
+    // that consecutive seeds give unrelated histories
+    let mut rng = Rng::new(args.seed).fork();
 
     // ---- histories ---------------------------------------------------------------------
     let mut hists: Vec<(String, Vec<Rq>)> = vec![];
@@ -550,7 +552,7 @@ fn main() {
     }
     rep.count_n("corpus_histories", hists.len() as u64);
     if args.replay.is_none() {
-        let (n_part, n_rand) = if args.thorough() { (120, 600) } else { (20, 80) };
+        let (n_part, n_rand) = if args.thorough() { (60, 240) } else { (12, 40) };
         for _ in 0..n_part {
             let len = 1 + rng.usize(6);
             hists.push(("partial".into(), gen_partial(&mut rng, len)));
